@@ -287,6 +287,19 @@ def run_plan(plan):
         if not np.allclose(np.asarray(lg.lipschitz), group_true / 4, rtol=1e-9, atol=1e-300):
             add("dense_group", ("LogisticGroup", "group_dense", "differs_from_reference"), {},
                 dict(datafit="LogisticGroup", what="group_dense"))
+        # Cox: the documented diagonal bound, on survival times *with ties*, both conventions
+        tm_t = np.round((np.abs(y) + 0.1) * 2 + 0.5) / 2
+        ys_t = np.column_stack([tm_t, ysurv[:, 1]])
+        for ef in (False, True):
+            dc = compiled_clone(Cox(ef))
+            dc.initialize(Xf, ys_t)
+            rh = np.asarray(dc.raw_hessian(ys_t, u), dtype=float)
+            ref = L_.Cox(ys_t, ef).hess_bound(u)
+            probes["cox_raw_hessian_compared"] = probes.get("cox_raw_hessian_compared", 0) + 1
+            if not np.allclose(rh, ref, rtol=1e-6, atol=1e-12 * float(np.max(np.abs(ref), initial=0.0))):
+                add("raw_hessian", ("Cox", "raw_hessian", "differs_from_reference"),
+                    dict(max_abs=float(np.max(np.abs(rh - ref))), use_efron=ef),
+                    dict(datafit="Cox", what="raw_hessian", use_efron=ef))
         for nm, cls_, rlo, yy in (("Poisson", Poisson, L_.Poisson(np.abs(np.round(y * 2))), np.abs(np.round(y * 2))),
                                   ("Gamma", Gamma, L_.Gamma(np.abs(y) + 0.1), np.abs(y) + 0.1)):
             d = compiled_clone(cls_())
